@@ -2,7 +2,7 @@
    list, prod, sumbool, sumor -> the OCaml types); numbers stay the extracted inductives.
    No Extract Constant / Extract Inductive of our own. *)
 From Coq Require Import Extraction ExtrOcamlBasic.
-From KP Require Import Bytes Utf8 Nav Tree History Merge Version ReadScript WriteScript Base32 Otp OtpInst Kdbx4.
+From KP Require Import Bytes Utf8 Nav Tree History Merge Version ReadScript WriteScript Base32 Otp OtpInst Kdbx4 Key.
 Extraction Language OCaml.
 Set Extraction KeepSingleton.
 Separate Extraction
@@ -13,4 +13,5 @@ Separate Extraction
   ReadScript.read_to_end ReadScript.rte_fuel ReadScript.get_version_model Version.version_parse
   Base32.b32_decode Base32.b32_encode Otp.otp_parse Otp.value_at OtpInst.hmac_alg BinNat.N.mul BinNat.N.div BinNat.N.modulo
   Kdbx4.decrypt4 Kdbx4.dump4 Kdbx4.draw_sizes Kdbx4.vd_of_kdf Kdbx4.draws_ok
+  Key.key_elements Key.composite_kdb Key.composite_kdbx
   WriteScript.save_to_sink WriteScript.fresh_sink WriteScript.save_raw.
